@@ -50,6 +50,11 @@ NY == FFrob2(Y)
 ScoreClause(f) == IF NX = 0 \/ NY = 0 THEN "ok"
                   ELSE IF FAbs(FMul(-f.score, FMul(NX, NY)) - (FMul(LX(f), NY) + FMul(LY(f), NX))) > 8 * (NX \div S + NY \div S + 4) * (n * m + 8) + FMul(NX, NY) \div 300
                        THEN "score-differs-from-minus-sum-of-relative-losses" ELSE "ok"
+\* score with latent coordinates supplied by the caller (third argument): the losses of exactly these coordinates
+ScoreTClause(f) == IF f.XrS = <<>> \/ NX = 0 \/ NY = 0 THEN "ok"
+                   ELSE LET lx == FFrob2(FSub(X, f.XrS))  ly == FFrob2(FSub(Y, f.YpS)) IN
+                        IF FAbs(FMul(-f.scoreS, FMul(NX, NY)) - (FMul(lx, NY) + FMul(ly, NX))) > 8 * (NX \div S + NY \div S + 4) * (n * m + 8) + FMul(NX, NY) \div 300
+                        THEN "score-with-supplied-latent-coordinates-differs-from-their-losses" ELSE "ok"
 \* the same on data the model was not fitted on: score(Xn, Yn) = -(|Xn - Xr_n|^2/|Xn|^2 + |Yn - Yp_n|^2/|Yn|^2)
 XnF(f) == [i \in 1..Len(f.Xn) |-> [j \in 1..m |-> f.Xn[i][j] * (S \div 4)]]
 ScoreNewClause(f) == IF f.Yn = <<>> THEN "ok"
@@ -67,7 +72,7 @@ NestClause(g) == IF \E q \in 1..Len(Chain(g)) - 1 : LET f1 == F[Chain(g)[q]] f2 
                  THEN "training-loss-increases-with-k"
                  ELSE "ok"
 First(s) == LET bad == {i \in 1..Len(s) : s[i] # "ok"} IN IF bad = {} THEN "ok" ELSE s[SetMin(bad)]
-C14Clause == First([i \in 1..NF |-> C14Fit(F[i])] \o [i \in 1..NF |-> ScoreClause(F[i])] \o [i \in 1..NF |-> ScoreNewClause(F[i])] \o [g \in 1..Len(C.chains) |-> NestClause(g)])
+C14Clause == First([i \in 1..NF |-> C14Fit(F[i])] \o [i \in 1..NF |-> ScoreClause(F[i])] \o [i \in 1..NF |-> ScoreTClause(F[i])] \o [i \in 1..NF |-> ScoreNewClause(F[i])] \o [g \in 1..Len(C.chains) |-> NestClause(g)])
 (* ------------------------------ C03 ------------------------------ *)
 \* eigen-certificate of one fit:  Kt T = T Lam,  T^T T = Lam,  Lam decreasing, ev = lam/(n-1)
 EigBud(f, K) == 4 * n * (Mag(K) + Mag(f.T) + 2) + FMaxAbs(TLam(f)) \div 400
